@@ -276,6 +276,67 @@ static int zoo_run(int P, unsigned seed, int n) {
     return 0;
 }
 
+// mode "latedge": senders that KEEP a message nobody took (input_node, buffering nodes) must offer it again when a successor registers later / again.
+//   A  input_node active without successors, a pull (try_get) starts production, the item is cached; then make_edge -> every item processed once
+//   B  input_node -> reserving join port whose partner never gets data (item rejected and kept); then make_edge to a second consumer -> all items flow there
+//   C  input_node -> REJECTING serial function_node, `rounds` graphs of n items (edge flips between push and pull while the put task still holds the reservation)
+//   D  queue / buffer / priority_queue / sequencer / overwrite / write_once node filled while they have no successor, then make_edge -> delivered
+// output: LOSTA a DUPA b LOSTB c DUPB d LOSTC e DUPC f LATE g
+static int latedge_run(int P, unsigned seed, int n, int rounds) {
+    tbb::global_control gc(tbb::global_control::max_allowed_parallelism, P);
+    long lostA = 0, dupA = 0, lostB = 0, dupB = 0, lostC = 0, dupC = 0, late = 0;
+    auto tally = [&](std::vector<std::atomic<int>>& seen, long& lost, long& dup) { for (auto& x : seen) { if (x.load() == 0) lost++; else if (x.load() > 1) dup++; } };
+    {   // A
+        graph g; int next = 0; std::vector<std::atomic<int>> seen(n); for (auto& x : seen) x = 0;
+        input_node<int> in(g, [&](tbb::flow_control& fc) -> int { if (next >= n) { fc.stop(); return -1; } return next++; });
+        function_node<int, int> sink(g, serial, [&](int v) { seen[v]++; return v; });
+        in.activate();
+        int v = -1; if (in.try_get(v)) seen[v]++;
+        g.wait_for_all();
+        make_edge(in, sink);
+        g.wait_for_all();
+        tally(seen, lostA, dupA);
+    }
+    {   // B
+        graph g; int next = 0; std::vector<std::atomic<int>> seen(n); for (auto& x : seen) x = 0;
+        input_node<int> in(g, [&](tbb::flow_control& fc) -> int { if (next >= n) { fc.stop(); return -1; } return next++; });
+        join_node<std::tuple<int, int>, reserving> j(g); queue_node<int> never(g);
+        function_node<std::tuple<int, int>, int> jsink(g, serial, [&](const std::tuple<int, int>& t) { seen[std::get<0>(t)]++; return 0; });
+        function_node<int, int> other(g, serial, [&](int v) { seen[v]++; return v; });
+        make_edge(in, input_port<0>(j)); make_edge(never, input_port<1>(j)); make_edge(j, jsink);
+        in.activate(); g.wait_for_all();
+        make_edge(in, other); g.wait_for_all();
+        tally(seen, lostB, dupB);
+    }
+    for (int r = 0; r < rounds; ++r) {   // C
+        graph g; int next = 0; std::vector<std::atomic<int>> seen(n); for (auto& x : seen) x = 0;
+        unsigned spin = (seed + r) % 5 * 40;
+        input_node<int> in(g, [&](tbb::flow_control& fc) -> int { if (next >= n) { fc.stop(); return -1; } return next++; });
+        function_node<int, int, rejecting> f(g, serial, [&](int v) { for (volatile unsigned k = 0; k < spin; ++k) {} seen[v]++; return v; });
+        make_edge(in, f); in.activate(); g.wait_for_all();
+        long l0 = lostC; tally(seen, lostC, dupC);
+        if (lostC != l0) break;
+    }
+    {   // D
+        graph g; std::atomic<long> got{0}, sum{0};
+        auto mk = [&] { return new function_node<long, long>(g, serial, [&](long v) { got++; sum += v; return v; }); };
+        queue_node<long> q(g); buffer_node<long> b(g); priority_queue_node<long> pq(g); sequencer_node<long> sq(g, [](const long& v) -> size_t { return (size_t)v; });
+        overwrite_node<long> ow(g); write_once_node<long> wo(g);
+        for (long i = 0; i < 5; ++i) { q.try_put(i); b.try_put(i); pq.try_put(i); sq.try_put(4 - i); }
+        ow.try_put(7); ow.try_put(9); wo.try_put(3); wo.try_put(4);
+        g.wait_for_all();
+        std::unique_ptr<function_node<long, long>> s1(mk()), s2(mk()), s3(mk()), s4(mk()), s5(mk()), s6(mk());
+        make_edge(q, *s1); g.wait_for_all(); if (got != 5) late++;
+        make_edge(b, *s2); g.wait_for_all(); if (got != 10) late++;
+        make_edge(pq, *s3); g.wait_for_all(); if (got != 15) late++;
+        make_edge(sq, *s4); g.wait_for_all(); if (got != 20 || sum != 40) late++;
+        make_edge(ow, *s5); g.wait_for_all(); if (got != 21 || sum != 49) late++;
+        make_edge(wo, *s6); g.wait_for_all(); if (got != 22 || sum != 52) late++;
+    }
+    std::printf("LOSTA %ld DUPA %ld LOSTB %ld DUPB %ld LOSTC %ld DUPC %ld LATE %ld\n", lostA, dupA, lostB, dupB, lostC, dupC, late);
+    return 0;
+}
+
 int main(int argc, char** argv) {
     std::string mode = argc > 1 ? argv[1] : "";
     if (mode == "seq") {
@@ -291,6 +352,7 @@ int main(int argc, char** argv) {
         return 0;
     }
     if (mode == "mtmix") return mtmix_run(atoi(argv[2]), (unsigned)atoi(argv[3]), atoi(argv[4]), atoi(argv[5]), atoi(argv[6]));
+    if (mode == "latedge") return latedge_run(atoi(argv[2]), (unsigned)atoi(argv[3]), atoi(argv[4]), atoi(argv[5]));
     if (mode == "zoo") return zoo_run(atoi(argv[2]), (unsigned)atoi(argv[3]), atoi(argv[4]));
     if (mode == "mtpull") return mtpull_run(atoi(argv[2]), (unsigned)atoi(argv[3]), atoi(argv[4]), atoi(argv[5]));
     if (mode == "mt") return mt_run(atoi(argv[2]), (unsigned)atoi(argv[3]), atoi(argv[4]), atoi(argv[5]), atoi(argv[6]));
